@@ -349,6 +349,32 @@ func (e *Engine) applyCond(s *fstate, r AV, v ssa.Value, cond ssa.Value, branch 
 			other := e.at(s, x.X, d, depth+1)
 			return refineCmp(r, flip(op), other)
 		}
+		// min(a, b, …) > k  =>  every argument > k;   max(a, b, …) < k  =>  every argument < k
+		for side, opnd := range []ssa.Value{x.X, x.Y} {
+			call, ok := e.stripWiden(opnd).(*ssa.Call)
+			if !ok {
+				continue
+			}
+			bi, ok := call.Call.Value.(*ssa.Builtin)
+			if !ok || (bi.Name() != "min" && bi.Name() != "max") {
+				continue
+			}
+			o := op
+			other := x.Y
+			if side == 1 {
+				o, other = flip(op), x.X
+			}
+			lower := o == token.GTR || o == token.GEQ
+			upper := o == token.LSS || o == token.LEQ
+			if !(bi.Name() == "min" && lower) && !(bi.Name() == "max" && upper) {
+				continue
+			}
+			for _, a := range call.Call.Args {
+				if e.sameValue(s, v, a, c, b) {
+					return refineCmp(r, o, e.at(s, other, d, depth+1))
+				}
+			}
+		}
 	}
 	return r
 }
